@@ -799,6 +799,20 @@ class Session:
         if errs:
             findings.append(Finding("C01:wf_graph", "; ".join(errs[:3])))
             if not nodes or any("walk failed" in e or "reachable twice" in e or "own ancestor" in e for e in errs):
+                if nodes and not any("walk failed" in e or "own ancestor" in e for e in errs):
+                    # a node that is listed twice below one parent is also "two children with one data_id": the sibling
+                    # rule can still be evaluated on the child lists that were walked (index queries cannot)
+                    seen, uniq = set(), []
+                    for n in nodes:
+                        if id(n) not in seen:
+                            seen.add(id(n))
+                            uniq.append(n)
+                    try:
+                        e3 = wf.wf_siblings(self.tree, uniq)
+                    except Exception:
+                        e3 = []
+                    if e3:
+                        findings.append(Finding("C03:wf_siblings", "; ".join(e3[:3])))
                 return findings  # no usable node list: the other monitors cannot be evaluated
         self.max_nodes = max(self.max_nodes, len(nodes))
         if len(self.state_digests) < 60:
